@@ -25,7 +25,11 @@ mod real {
     use tiny_http::{Response, Server};
     use verif_harness::scenario::*;
 
-    const SETTLE: Duration = Duration::from_millis(80);
+    /// how long the real-socket runner waits for the server to become quiet (the in-memory
+    /// runner has true quiescence); longer on request (VERIF_SETTLE_MS) for loaded machines
+    fn settle_time() -> Duration {
+        Duration::from_millis(std::env::var("VERIF_SETTLE_MS").ok().and_then(|s| s.parse().ok()).unwrap_or(80))
+    }
 
     enum Sock {
         Tcp(TcpStream),
@@ -126,7 +130,7 @@ mod real {
             let (s, a, o) = (server.clone(), sc.app.clone(), obs.clone());
             std::thread::spawn(move || app_thread(s, a, o))
         };
-        std::thread::sleep(SETTLE);
+        std::thread::sleep(settle_time());
         let mut socks: Vec<Option<Sock>> = (0..sc.conns.len()).map(|_| None).collect();
         let mut local_addrs: Vec<Option<String>> = vec![None; sc.conns.len()];
         for (ci, step) in &sc.script {
@@ -154,7 +158,7 @@ mod real {
                     o.conns[ci].sent += b.len() as u64;
                     o.conns[ci].sent_bytes.extend_from_slice(b);
                 }
-                Step::Settle => std::thread::sleep(SETTLE),
+                Step::Settle => std::thread::sleep(settle_time()),
                 Step::CloseWrite => socks[ci].as_ref().unwrap().shutdown(Shutdown::Write),
                 Step::Close => {
                     let mut co = obs.lock().unwrap().conns[ci].clone();
@@ -177,7 +181,7 @@ mod real {
                 }
                 Step::SleepMs(ms) => std::thread::sleep(Duration::from_millis(*ms)),
                 Step::SendIfContinue(b) => {
-                    std::thread::sleep(SETTLE);
+                    std::thread::sleep(settle_time());
                     let mut co = obs.lock().unwrap().conns[ci].clone();
                     absorb(socks[ci].as_mut().unwrap(), &mut co);
                     let has_100 = verif_harness::httpparse::parse_stream(&co.received, &[]).msgs.iter().any(|m| m.status == 100);
@@ -195,7 +199,7 @@ mod real {
                 Step::AppGo => server.unblock(),
             }
         }
-        std::thread::sleep(SETTLE);
+        std::thread::sleep(settle_time());
         obs.lock().unwrap().script_done = true;
         for ci in 0..socks.len() {
             if let Some(s) = socks[ci].as_mut() {
@@ -208,14 +212,14 @@ mod real {
         }
         server.unblock();
         if sc.app.deferred {
-            std::thread::sleep(SETTLE);
+            std::thread::sleep(settle_time());
             server.unblock();
         }
         let _ = app.join();
         for s in socks.iter().flatten() {
             s.shutdown(Shutdown::Write);
         }
-        std::thread::sleep(SETTLE);
+        std::thread::sleep(settle_time());
         for ci in 0..socks.len() {
             if let Some(s) = socks[ci].as_mut() {
                 let mut co = obs.lock().unwrap().conns[ci].clone();
@@ -730,7 +734,11 @@ mod real {
         }
         // after the scenario threads have ended: the thread counts need a quiet process
         std::thread::sleep(Duration::from_millis(300));
-        let real_only = std::thread::spawn(real_only).join().unwrap_or(json!({"error": "real-only clauses panicked"}));
+        let real_only = if std::env::var_os("VERIF_SCENARIOS_ONLY").is_some() {
+            json!({})
+        } else {
+            std::thread::spawn(real_only).join().unwrap_or(json!({"error": "real-only clauses panicked"}))
+        };
         let out = json!({"scenarios": results.lock().unwrap().iter().map(|x| x.clone().unwrap_or(Value::Null)).collect::<Vec<_>>(), "real_only": real_only});
         println!("{}", out);
     }
